@@ -25,10 +25,39 @@ theorem eq_of_isOk {r : Except Err Text} {t : Text} (h : isOk r t = true) : r = 
   | ok x => simp [isOk] at h; simp [h]
   | error e => simp [isOk] at h
 
-def romanOk (n : Nat) : Bool :=
-  n == 0 || isOk (formatIntRoman (n : Int)) (Spec.Labels.romanAux Spec.Labels.romanTable n)
+/-- The loop over the three low digits against the part of the table below `m`. -/
+def romanLowOk (k : Nat) : Bool :=
+  match romanLoop 3 k 0 [] with
+  | .ok r => r.flatten == Spec.Labels.romanAux Spec.Labels.romanTable.tail k
+  | .error _ => false
 
-theorem romanOk_all : (List.range 4000).all romanOk = true := by decide +kernel
+theorem romanLowOk_all : (List.range 1000).all romanLowOk = true := by decide +kernel
+
+theorem rep_eq_replicate (s : Text) : ∀ k, rep s k = (List.replicate k s).flatten
+  | 0 => rfl
+  | k + 1 => by simp [rep, List.replicate_succ, rep_eq_replicate s k]
+
+theorem romanAux_table (n : Nat) :
+    Spec.Labels.romanAux Spec.Labels.romanTable n =
+      (List.replicate (n / 1000) [109]).flatten ++ Spec.Labels.romanAux Spec.Labels.romanTable.tail (n % 1000) := rfl
+
+/-- `format_int_roman` for EVERY positive value: repeated `m` for the thousands (however many),
+then the swept low part. -/
+theorem formatIntRoman_all (n : Nat) (h : 0 < n) :
+    formatIntRoman (n : Int) = .ok (Spec.Labels.romanAux Spec.Labels.romanTable n) := by
+  have hk := all_range_lift romanLowOk_all (n % 1000) (Nat.mod_lt _ (by decide))
+  unfold romanLowOk at hk
+  unfold formatIntRoman
+  have h0 : (0 : Int) < n := by omega
+  have hm : listGet ROMAN_ONES 3 = .ok [109] := rfl
+  simp only [h0, if_true, Int.toNat_natCast]
+  cases hr : romanLoop 3 (n % 1000) 0 [] with
+  | error e => rw [hr] at hk; simp at hk
+  | ok r =>
+    rw [hr] at hk
+    have hf : r.flatten = Spec.Labels.romanAux Spec.Labels.romanTable.tail (n % 1000) := by simpa using hk
+    rw [romanAux_table, ← hf]
+    simp [bind, Except.bind, hm, pure, Except.pure, rep_eq_replicate]
 
 def romanValueOk (n : Nat) : Bool :=
   Spec.Labels.romanValue (Spec.Labels.romanAux Spec.Labels.romanTable n) == (n : Int)
